@@ -63,16 +63,18 @@ def main():
         shutil.rmtree(wt, ignore_errors=True)
     caught = {}
     if rec["confirmed"] and checks:
-        rc, out = sh(["git", "diff", "--quiet"], "/repo")
-        if rc != 0:
-            print("/repo is not clean; not running checks")
-            return 2
-        sh(["git", "apply", patch], "/repo")
+        # run the checks against a scratch worktree carrying the change (VERIF_REPO), so that other work
+        # going on against /repo is not disturbed; equivalent to `git -C /repo apply` + checks + checkout
+        wt2 = "/tmp/mutv/" + name + "-chk"
+        shutil.rmtree(wt2, ignore_errors=True)
+        subprocess.run(["git", "-C", "/repo", "worktree", "prune"], capture_output=True)
+        sh(["git", "-C", "/repo", "worktree", "add", "-q", "--detach", wt2, "HEAD"], "/repo")
+        sh(["git", "apply", patch], wt2)
         try:
             for cid in checks:
                 t0 = time.time()
                 p = subprocess.run(["./check", cid, os.environ.get("TIER", "quick")], cwd=VERIF, capture_output=True, text=True,
-                                   env=dict(os.environ, VERIF_SEED=os.environ.get("VERIF_SEED", "1")))
+                                   env=dict(os.environ, VERIF_SEED=os.environ.get("VERIF_SEED", "1"), VERIF_REPO=wt2))
                 first = next((l for l in p.stdout.splitlines() if l.startswith(("VIOLATION", "OK", "KNOWN"))), "")
                 detail = ""
                 lines = p.stdout.splitlines()
@@ -80,9 +82,12 @@ def main():
                     if l.startswith("VIOLATION"):
                         detail = "\n".join(lines[i + 1:i + 4])[:600]
                         break
+                if p.returncode == 2:
+                    detail = (p.stderr or "")[-600:]
                 caught[cid] = {"exit": p.returncode, "first_line": first[:200], "detail": detail, "wall_s": round(time.time() - t0)}
         finally:
-            subprocess.run(["git", "-C", "/repo", "checkout", "--", "."], capture_output=True)
+            subprocess.run(["git", "-C", "/repo", "worktree", "remove", "--force", wt2], capture_output=True)
+            shutil.rmtree(wt2, ignore_errors=True)
     rec["checks"] = caught
     rec["caught_by"] = [c for c, v in caught.items() if v["exit"] == 1]
     if rec["confirmed"]:
@@ -94,7 +99,7 @@ def main():
         m.update({"confirmed_by_main_session": {k: rec[k] for k in ("builds", "existing_tests_pass_with_patch", "demo_fails_with_patch", "demo_passes_without_patch")},
                   "demo_package_dir": demopkg,
                   "what_we_ran": ["git apply patch in a scratch worktree; go build ./...; go test " + " ".join(PKGS) + "; demo with and without the patch",
-                                  "git -C /repo apply patch; ./check <id> quick for " + ", ".join(checks) + "; git -C /repo checkout -- ."],
+                                  "worktree of /repo HEAD + patch; VERIF_REPO=<worktree> ./check <id> quick for " + ", ".join(checks) + "; worktree removed"],
                   "checks_run": caught, "caught_by": rec["caught_by"]})
         json.dump(m, open(os.path.join(d, "meta.json"), "w"), indent=1)
     print(json.dumps({k: rec.get(k) for k in ("name", "confirmed", "builds", "existing_tests_pass_with_patch", "demo_fails_with_patch", "demo_passes_without_patch", "caught_by", "error")}))
